@@ -277,9 +277,16 @@ impl<'tcx> Cx<'tcx> {
                 let val = match c.const_ {
                     Const::Val(..) => c.const_.try_eval_scalar_int(self.tcx, env),
                     Const::Unevaluated(uv, _) => {
-                        // only evaluate when nothing generic is involved
-                        if uv.args.is_empty() || !uv.args.iter().any(|a| a.as_type().map_or(false, |t| matches!(t.kind(), ty::Param(_)))) {
+                        if uv.promoted.is_some() {
+                            None
+                        } else if uv.args.is_empty() || !uv.args.iter().any(|a| a.as_type().map_or(false, |t| matches!(t.kind(), ty::Param(_)))) {
                             c.const_.try_eval_scalar_int(self.tcx, env)
+                        } else if matches!(self.tcx.def_kind(uv.def), DefKind::Const { .. }) {
+                            // a const item nested in a generic fn cannot use the generics: evaluate it polymorphically
+                            match self.tcx.const_eval_poly(uv.def) {
+                                Ok(v) => v.try_to_scalar_int(),
+                                Err(_) => None,
+                            }
                         } else {
                             None
                         }
